@@ -1,7 +1,9 @@
 import LinOp.C19.Proofs
+import LinOp.C19.ProofsPair
 import LinOp.Generated.C19Guards
 import LinOp.C19.Known
 import LinOp.C19.KnownDelegations
+import LinOp.C19.KnownDispatch
 /-!
 C19 — incompatible shapes and out-of-range indices raise, never mis-compute.  Property theorems.
 
@@ -548,6 +550,130 @@ theorem guarded_toeplitzIndex (n : Nat) (i j : Int) (r c : Nat)
 
 example : rangeCheck 4 (-1) = .ok 3 := by decide
 
+
+/-! ### Operator ⋆ operator shortcuts on the internal tensors (BlockDiag @ BlockDiag, Diag @ Diag, ConstantDiag ± ConstantDiag) -/
+
+/-- **`BlockDiag @ BlockDiag` accepts exactly what torch accepts for the two dense block-diagonal matrices, with torch's
+shape** — for all batch shapes `B`, `B'`, block counts `nb`, `nb'` and block sizes `k`, `j`: the block-wise shortcut
+`BlockDiag(base @ other.base)` is taken only for EQUAL base shapes, every other pair meets the base guard. -/
+theorem blockDiagPairMatmul_iff_torch (B B' : List Nat) (nb k nb' j : Nat) (s : List Nat) :
+    blockDiagPairMatmul (B ++ [nb, k, k]) (B' ++ [nb', j, j]) = .ok s ↔
+      torchMatmulShape? (B ++ [nb * k, nb * k]) (B' ++ [nb' * j, nb' * j]) = some s := by
+  simp only [blockDiagPairMatmul, blockDiagShape_append]
+  by_cases he : B ++ [nb, k, k] = B' ++ [nb', j, j]
+  · obtain ⟨hB, ht⟩ := List.append_inj' he (by simp)
+    subst hB
+    simp only [List.cons.injEq, and_true] at ht
+    obtain ⟨rfl, rfl, _⟩ := ht
+    have h1 : B ++ [nb, k, k] = (B ++ [nb]) ++ [k, k] := by simp
+    have hg : matmulBroadcastShape (B ++ [nb, k, k]) (B ++ [nb, k, k]) = .ok (B ++ [nb, k, k]) := by
+      rw [h1, matmulBroadcastShape_iff_torch, torch_mm_mat]
+      simp [broadcast_self]
+    simp only [if_true, blockDiagOfBaseProduct, hg, blockDiagShape_append, torch_mm_mat, broadcast_self,
+      Option.map_some]
+    constructor
+    · intro h; cases h; rfl
+    · intro h; cases h; rfl
+  · simp only [he, if_false]
+    exact matmulBroadcastShape_iff_torch B (nb * k) (nb * k) _ s
+
+/-- Why the condition must compare the WHOLE base shape: with "same block size" only, a 1-block 3×3 operator times a
+2-block 6×6 operator is accepted (the size-1 block dimension broadcasts inside `base @ base`) and yields a 6×6 result,
+although torch refuses (3×3)@(6×6); likewise against a batched base, in both orders. -/
+theorem blockDiagPairMatmulLoose_counterexample :
+    blockDiagPairMatmulLoose [1, 3, 3] [2, 3, 3] = .ok [6, 6] ∧ torchMatmulShape? [3, 3] [6, 6] = none ∧
+    blockDiagPairMatmulLoose [2, 3, 3] [1, 3, 3] = .ok [6, 6] ∧ torchMatmulShape? [6, 6] [3, 3] = none ∧
+    blockDiagPairMatmulLoose [1, 3, 3] [2, 2, 3, 3] = .ok [2, 6, 6] ∧ torchMatmulShape? [3, 3] [2, 6, 6] = none ∧
+    blockDiagPairMatmul [1, 3, 3] [2, 3, 3] = .error .shape ∧ blockDiagPairMatmul [1, 3, 3] [2, 2, 3, 3] = .error .shape := by
+  decide
+
+/-- **`Diag @ Diag` (guard, then the elementwise product of the two diagonals) accepts exactly what torch accepts for the
+dense diagonal matrices, with torch's shape** — all batch shapes, all diagonal lengths. -/
+theorem diagPairMatmul_iff_torch (A : List Nat) (n : Nat) (B : List Nat) (m : Nat) (s : List Nat) :
+    diagPairMatmul A n B m = .ok s ↔ torchMatmulShape? (A ++ [n, n]) (B ++ [m, m]) = some s := by
+  simp only [diagPairMatmul]
+  cases hg : matmulBroadcastShape (A ++ [n, n]) (B ++ [m, m]) with
+  | error e =>
+    have hn := (matmulBroadcastShape_error_iff_torch_none A n n (B ++ [m, m])).mp ⟨e, hg⟩
+    simp [hn]
+  | ok t =>
+    have ht := (matmulBroadcastShape_iff_torch A n n (B ++ [m, m]) t).mp hg
+    rw [torch_mm_mat] at ht ⊢
+    by_cases hnm : n = m
+    · subst hnm
+      simp only [if_true] at ht ⊢
+      rw [broadcast_append_same]
+      cases hb : broadcastShapes? A B with
+      | none => simp [hb] at ht
+      | some bc => simp
+    · simp [hnm] at ht
+
+/-- the product of the diagonals alone (shortcut in front of the guard) broadcasts a length-1 diagonal: a 1×1 diagonal
+operator times a 3×3 one would be 3×3. -/
+theorem diagPairMatmulUnguarded_counterexample :
+    diagPairMatmulUnguarded [] 1 [] 3 = .ok [3, 3] ∧ torchMatmulShape? [1, 1] [3, 3] = none ∧
+    diagPairMatmul [] 1 [] 3 = .error .shape := by decide
+
+/-- **`ConstantDiag + ConstantDiag` (also Identity, and `-`): whatever the shortcut accepts torch accepts for the dense
+matrices, with the same shape** — all batch shapes of the constants, all matrix sizes. -/
+theorem constantDiagPairAdd_sound (A : List Nat) (n : Nat) (B : List Nat) (m : Nat) (s : List Nat)
+    (h : constantDiagPairAdd A n B m = .ok s) : broadcastShapes? (A ++ [n, n]) (B ++ [m, m]) = some s := by
+  simp only [constantDiagPairAdd] at h
+  by_cases hnm : n = m
+  · subst hnm
+    simp only [ne_eq, not_true_eq_false, if_false, broadcast_append_same] at h
+    rw [broadcast_append_same2]
+    cases hb : broadcastShapes? A B with
+    | none => simp [hb] at h
+    | some bc => simp [hb] at h; simp [h]
+  · simp [hnm] at h
+
+/-- …and for equal matrix sizes it accepts exactly the broadcastable batch shapes. -/
+theorem constantDiagPairAdd_iff (A B : List Nat) (n : Nat) (s : List Nat) :
+    constantDiagPairAdd A n B n = .ok s ↔ broadcastShapes? (A ++ [n, n]) (B ++ [n, n]) = some s := by
+  simp only [constantDiagPairAdd, ne_eq, not_true_eq_false, if_false, broadcast_append_same, broadcast_append_same2]
+  cases broadcastShapes? A B <;> simp
+
+/-- different matrix sizes always raise (the `diag_shape` comparison), whatever the batch shapes of the constants -/
+theorem constantDiagPairAdd_size_mismatch (A B : List Nat) (n m : Nat) (h : n ≠ m) :
+    constantDiagPairAdd A n B m = .error .shape := by
+  simp [constantDiagPairAdd, h]
+
+/-- Why the size comparison is load-bearing: the two `(*batch, 1)` constants always broadcast, so without it `c₁·I₃ + c₂·I₄`
+is a 3×3 operator (and `c₁·I₄ + c₂·I₁` a 4×4 one with the wrong off-diagonal), although torch refuses (3×3)+(4×4). -/
+theorem constantDiagPairAddUnchecked_counterexample :
+    constantDiagPairAddUnchecked [] 3 [] 4 = .ok [3, 3] ∧ broadcastShapes? [3, 3] [4, 4] = none ∧
+    constantDiagPairAddUnchecked [2] 4 [] 3 = .ok [2, 4, 4] ∧ broadcastShapes? [2, 4, 4] [3, 3] = none ∧
+    constantDiagPairAdd [] 3 [] 4 = .error .shape := by decide
+
+example : blockDiagPairMatmul [2, 3, 3] [2, 3, 3] = .ok [6, 6] ∧ diagPairMatmul [2] 3 [] 3 = .ok [2, 3, 3] ∧
+    constantDiagPairAdd [2] 3 [1] 3 = .ok [2, 3, 3] := by decide
+
+/-! ### Square-requirement guards -/
+
+/-- **A method with the `is_square` guard accepts an operator exactly when it is square; a method without it accepts every
+shape** — any batch rank. -/
+theorem squareGuard_iff (g : Bool) (A : List Nat) (m n : Nat) :
+    squareGuard g (A ++ [m, n]) = .ok () ↔ (g = true → m = n) := by
+  simp only [squareGuard, split2_append]
+  cases g <;> by_cases h : m = n <;> simp [h]
+
+/-- a guarded method raises `notSquare` on every rectangular operator -/
+theorem squareGuard_rect (A : List Nat) (m n : Nat) (h : m ≠ n) :
+    squareGuard true (A ++ [m, n]) = .error .notSquare := by
+  simp [squareGuard, split2_append, h]
+
+/-- class level: if the first class of the MRO that defines `method` carries the guard in the table, the method raises on
+every rectangular operator; the verdict depends on that class's row only. -/
+theorem squareGuardOf_rect (table : List ((String × String) × Bool)) (mro : List String) (method : String)
+    (A : List Nat) (m n : Nat) (h : m ≠ n)
+    (hd : mro.findSome? (fun c => table.lookup (c, method)) = some true) :
+    squareGuardOf table mro method (A ++ [m, n]) = .error .notSquare := by
+  simp [squareGuardOf, hd, squareGuard_rect A m n h]
+
+example : squareGuardOf [(("LinearOperator", "solve"), true)] ["DenseLinearOperator", "LinearOperator"] "solve" [2, 3, 4]
+    = .error .notSquare := by decide
+
 /-! ### Obligations over the table regenerated from the source on every run -/
 
 /-- How the shape / index guard of a public entry point is accounted for. -/
@@ -698,6 +824,30 @@ open LinOp.Generated.C19 in
 path) are the known ones: a hook re-routed past the method that carries the right-hand-side guard, a guarded helper call made
 conditional, or a new hook override changes the table and breaks this obligation. -/
 theorem delegations_are_the_known_ones : delegations = knownDelegations := by decide +kernel
+
+open LinOp.Generated.C19 in
+/-- The operator-operator dispatch of `matmul` / `__add__` / `__sub__` / `mul` / `_mul_matrix` / `add_low_rank` (which class
+tests, with which exact shape conditions, in which order relative to the shape guard) is the known one — the conditions the
+shortcut models (`blockDiagPairMatmul`, `diagPairMatmul`, `constantDiagPairAdd`) mirror. -/
+theorem dispatch_conditions_are_the_known_ones : dispatches = knownDispatches := by decide +kernel
+
+open LinOp.Generated.C19 in
+/-- Which square-only public methods carry the `is_square` guard themselves, per defining class, is the known table
+(the `squareGuardOf` model reads the generated table). -/
+theorem square_guards_are_the_known_ones : squareGuards = knownSquareGuards := by decide +kernel
+
+open LinOp.Generated.C19 in
+/-- **Every class's `solve`, `inv_quad`, `inv_quad_logdet`, `add_diagonal`, `diagonal`, `diagonalization`, `root_decomposition`,
+`root_inv_decomposition` resolved through the base class raises `notSquare` on every rectangular operator**: for each class
+whose MRO reaches the base-class definition of the method, the model's verdict on a `2 × 3` operator is `notSquare`
+(with `squareGuardOf_rect` / `squareGuard_iff` this extends to all rectangular shapes: the verdict depends on `m ≠ n` only). -/
+theorem base_square_methods_guarded :
+    mros.all (fun cm =>
+      ["solve", "inv_quad", "inv_quad_logdet", "add_diagonal", "diagonal", "diagonalization", "root_decomposition",
+       "root_inv_decomposition"].all (fun meth =>
+        match cm.2.find? (fun c => (squareGuards.lookup (c, meth)).isSome) with
+        | some "LinearOperator" => Impl.squareGuardOf squareGuards cm.2 meth [2, 3] == .error .notSquare
+        | _ => true)) = true := by decide +kernel
 
 open LinOp.Generated.C19 in
 /-- The base-class methods still contain their guards. -/
